@@ -571,6 +571,11 @@ def _verify_layout(model, bf, stats):
             require(set(tags) == f["tags"], "a field's tags are not its own "
                     "plus those of the fields depending on it",
                     dict(det, got=sorted(tags), expected=sorted(f["tags"])))
+            if isinstance(tags, set):
+                # what the caller does with the set it was given is its own
+                # business
+                tags.add("callers_own_note")
+                tags.discard(sorted(f["tags"])[0] if f["tags"] else "x")
             if s + ln == L:
                 stats["filled"] = True
         with sut("get_value/get_mask"):
